@@ -68,6 +68,8 @@ struct Plan {
     vanishr: Option<u64>,
     // simulated clock: every Instant::now() advances time by this many milliseconds
     clock_step_ms: Option<u64>,
+    // a catchable signal (SIGTERM, SIGINT, SIGHUP, ...) delivered to the process itself before event `seq`
+    signal: Option<(u64, i32)>,
 }
 
 struct State {
@@ -154,6 +156,7 @@ fn load_plan(path: &str) -> Plan {
             "limit" if t.len() == 3 => {
                 plan.limits.insert(t[1].to_string(), num(2));
             }
+            "signal" if t.len() == 3 => plan.signal = Some((num(1), num(2) as i32)),
             "crash" if t.len() == 2 => plan.crash = Some((num(1), None)),
             "crash" if t.len() == 4 && t[2] == "after" => plan.crash = Some((num(1), Some(num(3)))),
             "delay" if t.len() == 4 => plan.delay = Some((t[1].to_string(), num(2), num(3))),
@@ -251,6 +254,18 @@ impl State {
 
     /// Crash planned *before* this event?
     fn crash_before(&mut self, seq: u64, what: &str) {
+        if let Some((at, signo)) = self.plan.signal {
+            if at == seq {
+                self.log(format!("{} signal {} before {}", seq, signo, what));
+                unsafe extern "C" {
+                    fn raise(sig: i32) -> i32;
+                }
+                // default disposition ends the process here; a handler lets it run on
+                unsafe {
+                    raise(signo);
+                }
+            }
+        }
         if let Some((at, None)) = self.plan.crash {
             if at == seq {
                 self.log(format!("{} crash before {}", seq, what));
